@@ -341,6 +341,101 @@ def conv_prog(p, tab: Tab):
     return gapp("PDfg", grow(ins), conv_region(p["body"], tab))
 
 
+# ----------------------------------------------------------------------------- program -> Coq literal (model/Builder2.v)
+
+
+def sum_rows_ids(t, tab: Tab):
+    """variant rows (as interned ids) and the id of the sum type a program's type spec denotes, as the interpreter of
+    progs.py builds it (mk_ty, or tys.Sum over sum_rows when mk_ty gives a non-Sum class)"""
+    from hugr import tys
+    sty = progs.mk_ty(t)
+    if not isinstance(sty, tys.Sum):
+        sty = tys.Sum([[progs.mk_ty(x) for x in rw] for rw in progs.sum_rows(t)])
+    rows = [[tab.ty(json.loads(x._to_serial_root().model_dump_json())) for x in r] for r in sty.variant_rows]
+    return rows, tab.sum_of(rows)
+
+
+def conv_region2(r, tab, cond_root):
+    return gapp("Reg", gwids(r["ins"]), conv_stmts2(r["stmts"], tab, cond_root), gwids(r["outs"]))
+
+
+def conv_stmts2(sts, tab, cond_root):
+    out = "TNil"
+    for st in reversed(sts):
+        out = gapp("TCons", conv_stmt2(st, tab, cond_root), out)
+    return out
+
+
+def conv_stmt2(st, tab, cond_root):
+    """cond_root: the Hugr the statement is executed on is rooted in a Conditional (the interpreter then puts a
+    constant asked for at the root into the current container instead)"""
+    k = st["k"]
+    outs = gwids(st.get("outs", []))
+    if k == "op":
+        if st["op"][0] == "callind":
+            return gapp("TCallInd", gN(st["id"]), gwids(st["args"]), outs)
+        return gapp("TOp", gN(st["id"]), conv_opspec(st["op"], tab), gwids(st["args"]), outs)
+    if k == "load":
+        v = json.loads(progs.mk_val(st["val"])._to_serial_root().model_dump_json())
+        subs = []
+        cv = conv_val(v, tab, subs)
+        if subs:
+            raise OutOfModel("function constant")
+        cp = "CRoot" if st.get("const_parent", "here") == "root" and not cond_root else "CHere"
+        (w,) = st["outs"]
+        return gapp("TLoad", gN(st["id"]), gval(cv), cp, gN(w))
+    if k == "nested":
+        if st.get("insert"):
+            ins = [tab.ty(ser_ty(t)) for t in st["in_tys"]]
+            sub = gapp("QDfg", grow(ins), conv_region2(st["body"], tab, False))
+            return gapp("TInsert", gN(st["id"]), sub, gwids(st["args"]), outs)
+        return gapp("TNested", gN(st["id"]), gwids(st["args"]), conv_region2(st["body"], tab, cond_root), outs)
+    if k == "order":
+        return gapp("TOrder", gref(st["src"]), gref(st["dst"]))
+    if k == "loop":
+        if st.get("insert"):
+            sub = gapp("QLoop", grow([tab.ty(ser_ty(t)) for t in st["just_tys"]]),
+                       grow([tab.ty(ser_ty(t)) for t in st["rest_tys"]]), conv_region2(st["body"], tab, False))
+            return gapp("TInsert", gN(st["id"]), sub, gwids(st["just"] + st["rest"]), outs)
+        return gapp("TLoop", gN(st["id"]), gwids(st["just"]), gwids(st["rest"]), conv_region2(st["body"], tab, cond_root), outs)
+    if k == "cond":
+        style = st.get("style", "cases")
+        cases = st["cases"]
+        if style == "insert":
+            rows, sid_ = sum_rows_ids(st["sum_ty"], tab)
+            others = [tab.ty(ser_ty(t)) for t in st["other_tys"]]
+            cs = conv_cases2(cases, st.get("order", range(len(cases))), tab, True)
+            sub = gapp("QCond", grows(rows), grow(others), gN(sid_), cs)
+            return gapp("TInsert", gN(st["id"]), sub, gwids([st["cond"]] + st["args"]), outs)
+        order = [1, 0] if style == "ifelse" else st.get("order", range(len(cases)))
+        return gapp("TCond", gN(st["id"]), gN(st["cond"]), gwids(st["args"]), conv_cases2(cases, order, tab, cond_root), outs)
+    raise OutOfModel(k)
+
+
+def conv_cases2(cases, order, tab, cond_root):
+    out = "CNil"
+    for i in reversed(list(order)):
+        out = gapp("CCons", gN(i), conv_region2(cases[i], tab, cond_root), out)
+    return out
+
+
+def conv_prog2(p, tab: Tab):
+    """the Coq `prog2` literal of a program, or OutOfModel"""
+    root = p["root"]
+    if root == "dfg":
+        ins = [tab.ty(ser_ty(t)) for t in p["ins"]]
+        return gapp("QDfg", grow(ins), conv_region2(p["body"], tab, False))
+    if root == "loop":
+        return gapp("QLoop", grow([tab.ty(ser_ty(t)) for t in p["just_tys"]]),
+                    grow([tab.ty(ser_ty(t)) for t in p["rest_tys"]]), conv_region2(p["body"], tab, False))
+    if root == "cond":
+        rows, sid_ = sum_rows_ids(p["sum_ty"], tab)
+        others = [tab.ty(ser_ty(t)) for t in p["other_tys"]]
+        cs = conv_cases2(p["cases"], p.get("order", range(len(p["cases"]))), tab, True)
+        return gapp("QCond", grows(rows), grow(others), gN(sid_), cs)
+    raise OutOfModel("root " + root)
+
+
 # ----------------------------------------------------------------------------- the design-time transcription (cross-check)
 
 _FAKE = None
@@ -619,6 +714,132 @@ def mutate(c, rule, rng):
     return c
 
 
+# ----------------------------------------------------------------------------- near-miss programs
+# A well-formed generated program with ONE inconsistency that the builders document as an error (and have to refuse):
+#   cond      one case of a Conditional (add_conditional / add_if+add_else / Conditional(...) / insert_conditional) sets a
+#             different output row than the others: all outputs dropped (empty vs non-empty) or one output added; the
+#             changed case is the first one finished or a later one            -> ConditionalError "Mismatched case outputs"
+#   cfg_exit  one of several blocks branching to the exit sets a different row  -> MismatchedExit
+#   declared  the outputs declared for a function differ from what set_outputs is given -> ValueError
+# If a builder call raises, the program is outside the property (counted, not a violation); if every call is accepted the
+# serialised HUGR has to be valid, and `mon` decides with the program as the concrete failing input.
+
+
+def _nm_sites(p):
+    sites = []
+
+    def region_sites(r):
+        for st in r.get("stmts", []):
+            stmt_sites(st)
+
+    def stmt_sites(st):
+        k = st.get("k")
+        if k == "cond":
+            if len(st["cases"]) >= 2:
+                sites.append(("cond", st))
+            for c in st["cases"]:
+                region_sites(c)
+        elif k in ("nested", "loop"):
+            region_sites(st["body"])
+        elif k == "cfg":
+            cfg_sites(st)
+        elif k == "localfn":
+            if st.get("declare"):
+                sites.append(("declared", ("localfn", st)))
+            region_sites(st["body"])
+
+    def cfg_sites(c):
+        exits = [b for b in c["branches"] if b[1] in ("exit", "exit_via_branch")]
+        if len(exits) >= 2:
+            sites.append(("cfg_exit", c))
+        for bl in c["blocks"]:
+            region_sites(bl["body"])
+    root = p["root"]
+    if root in ("dfg", "loop"):
+        region_sites(p["body"])
+    elif root == "func":
+        if p.get("declare"):
+            sites.append(("declared", ("func", p)))
+        region_sites(p["body"])
+    elif root == "cond":
+        if len(p["cases"]) >= 2:
+            sites.append(("cond", p))
+        for c in p["cases"]:
+            region_sites(c)
+    elif root == "cfg":
+        cfg_sites(p)
+    elif root == "module":
+        for f in p["funcs"]:
+            if not f.get("decl") and f.get("body") is not None:
+                if f.get("declare") and not (f["name"] == "main" and not f.get("params")):
+                    sites.append(("declared", ("modfn", f)))
+                region_sites(f["body"])
+    return sites
+
+
+def _nm_change_outs(region, in_tys, rng, force=None):
+    """changes the output row of a region: 'drop' (all outputs removed) or 'add' (one more, copyable, output);
+    returns the description or None"""
+    outs, tys_ = list(region["outs"]), list(region["out_tys"])
+    cands = [(w, t) for w, t in zip(outs, tys_) if not progs.is_linear(t)]
+    cands += [(w, t) for w, t in zip(region["ins"], in_tys) if not progs.is_linear(t)]
+    kinds = (["drop"] if outs else []) + (["add"] if cands else [])
+    if force in kinds:
+        kinds = [force]
+    if not kinds:
+        return None
+    kind = rng.choice(kinds)
+    if kind == "drop":
+        region["outs"], region["out_tys"] = [], []
+    else:
+        w, t = rng.choice(cands)
+        region["outs"], region["out_tys"] = outs + [w], tys_ + [t]
+    return kind
+
+
+def near_miss(prog, rng):
+    """-> (program, description) with description None when the program offers no site"""
+    p = copy.deepcopy(prog)
+    sites = _nm_sites(p)
+    if not sites:
+        return prog, None
+    kind, site = rng.choice(sites)
+    if kind == "cond":
+        cases = site["cases"]
+        style = site.get("style", "cases")
+        order = [1, 0] if style == "ifelse" else list(site.get("order", range(len(cases))))
+        pos = 0 if rng.random() < 0.5 else rng.randrange(1, len(order))
+        rows = progs.sum_rows(site["sum_ty"])
+        i = order[pos]
+        how = _nm_change_outs(cases[i], rows[i] + list(site["other_tys"]), rng)
+        if how is None:
+            return prog, None
+        return p, "cond:%s:%s" % (how, "first" if pos == 0 else "later")
+    if kind == "cfg_exit":
+        exits = [k for k, b in enumerate(site["branches"]) if b[1] in ("exit", "exit_via_branch")]
+        blocks_by_wire = {}
+        for bl in site["blocks"]:
+            for w in bl["branch_wires"]:
+                blocks_by_wire[w] = bl
+        pos = 0 if rng.random() < 0.5 else rng.randrange(1, len(exits))
+        bl = blocks_by_wire.get(site["branches"][exits[pos]][0])
+        if bl is None or not bl.get("single"):
+            return prog, None
+        how = _nm_change_outs(bl["body"], bl["in_tys"], rng)
+        if how is None:
+            return prog, None
+        return p, "cfg_exit:%s:%s" % (how, "first" if pos == 0 else "later")
+    where, f = site
+    decl = f["outs"] if where == "modfn" else f["body"]["out_tys"]
+    if decl and rng.random() < 0.5:
+        decl.pop()
+        how = "drop"
+    else:
+        decl.append("B")
+        how = "add"
+    return p, "declared:%s:%s" % (where, how)
+
+
 # ----------------------------------------------------------------------------- the property
 
 
@@ -676,6 +897,18 @@ class C01(fw.Prop):
         # mix tracked indices and explicit wires in any order (drawn last: the seeds of the streams above are unchanged)
         for i in range(48 if tier == "quick" else 500):
             cases.append({"seed": rng.randrange(1 << 30), "root": "tdfg"})
+        # programs inside the extended builder model (model/Builder2.v): loops, conditionals (cases in any order,
+        # if/else), every insert_* variant, CallIndirect, Dfg / TailLoop / Conditional roots (drawn last again)
+        for i in range(120 if tier == "quick" else 1500):
+            cases.append({"seed": rng.randrange(1 << 30), "root": ["dfg", "loop", "cond", "dfg"][i % 4],
+                          "allow": ["nested", "cond", "loop", "order", "md", "insert"],
+                          "size": rng.choice([4, 6, 8, 10]), "depth": rng.choice([2, 3, 3, 4])})
+        # near-miss programs: a well-formed program with one inconsistency the builders have to refuse (see near_miss);
+        # drawn last again
+        nm_roots = ["dfg", "cond", "module", "cfg", "func", "cond", "dfg", "loop"]
+        for i in range(96 if tier == "quick" else 900):
+            cases.append({"seed": rng.randrange(1 << 30), "root": nm_roots[i % len(nm_roots)],
+                          "nearmiss": rng.randrange(1 << 30), "size": rng.choice([3, 4, 6]), "depth": rng.choice([2, 3])})
         return cases
 
     def program(self, case):
@@ -690,7 +923,15 @@ class C01(fw.Prop):
             kw["max_depth"] = case["depth"]
         if case.get("allow") is not None:
             kw["allow"] = tuple(case["allow"])
-        return progs.gen_program(random.Random(case["seed"]), case.get("root"), **kw)
+        p = progs.gen_program(random.Random(case["seed"]), case.get("root"), **kw)
+        if case.get("nearmiss") is not None:
+            # a program without a site for an inconsistency is replaced by the next seeds' (deterministic in the case)
+            for t in range(8):
+                q = p if t == 0 else progs.gen_program(random.Random(case["seed"] + t), case.get("root"), **kw)
+                q, how = near_miss(q, random.Random(case["nearmiss"] + t))
+                if how is not None:
+                    return {**q, "_near_miss": how}
+        return p
 
     def observe(self, case, ctx):
         p = self.program(case)
@@ -699,16 +940,21 @@ class C01(fw.Prop):
         except ConvError:
             raise
         except Exception as e:
-            return {"error": type(e).__name__, "msg": str(e)[:200], "prog": p}
+            return {"error": type(e).__name__, "msg": str(e)[:200], "prog": p, "near_miss": p.get("_near_miss")}
         if len(d1["nodes"]) > self.MAX_NODES and "seed" in case and case.get("size") is None:
             # keep the Coq evaluation within the budget: regenerate the same seed with a smaller size
             return self.observe({**case, "size": 3, "depth": 2}, ctx)
         same = strip_doc(d1) == strip_doc(d2)
         fv, fmsg = fake_verdict(d1)
         return {"doc": strip_doc(d1), "same": same, "fake": fv, "fake_msg": fmsg, "prog": p,
+                "near_miss": p.get("_near_miss"),
                 "eff": {k: case[k] for k in ("size", "depth") if k in case}}
 
     def literal(self, case, obs, ctx):
+        if "error" in obs and obs.get("near_miss"):
+            # a near-miss program (one inconsistency the builders document as an error) and a builder call raised:
+            # outside the property ("whenever no builder call raises"); counted in the distribution
+            return "(CSkip)"
         if "error" in obs:
             # the builders raised on a program the generator believes well formed: not a validity question;
             # reported by extra() as a generator/builder problem
@@ -719,14 +965,27 @@ class C01(fw.Prop):
         if obs["fake"] is not None:
             pass
         lit = None
-        if obs["prog"]["root"] == "dfg":
+        if obs.get("near_miss"):
+            lit = gapp("CDoc", gvhugr(c), gbool(obs["same"]), gbool(obs["fake"]))
+        if lit is None and obs["prog"]["root"] == "dfg":
             try:
                 pl = conv_prog(obs["prog"], c["tab"])      # may intern further types: before the table is printed
                 lit = gapp("CProg", pl, gvhugr(c), gbool(obs["same"]), gbool(obs["fake"]))
                 obs["in_model"] = True
+                obs["in_model2"] = True                     # by conservativity (C01_builder2_conservative)
                 ctx.__dict__.setdefault("c01_prem", []).append((case, gapp("CPrem", gtab(c["tab"]), pl)))
             except OutOfModel as e:
                 obs["out_of_model"] = str(e)
+        if lit is None and obs["prog"]["root"] in ("dfg", "loop", "cond"):
+            # the extended builder model (model/Builder2.v): TailLoop, Conditional, insert_*, CallIndirect
+            try:
+                pl2 = conv_prog2(obs["prog"], c["tab"])
+                lit = gapp("CProg2", pl2, gvhugr(c), gbool(obs["same"]), gbool(obs["fake"]))
+                obs["in_model2"] = True
+                ctx.__dict__.setdefault("c01_prem", []).append((case, gapp("CPrem2", gtab(c["tab"]), pl2)))
+                obs.pop("out_of_model", None)
+            except OutOfModel as e:
+                obs["out_of_model2"] = str(e)
         if lit is None:
             lit = gapp("CDoc", gvhugr(c), gbool(obs["same"]), gbool(obs["fake"]))
         ctx.__dict__.setdefault("c01_fake", []).append((case, obs["fake"], obs["fake_msg"], lit if not obs["fake"] else None))
@@ -782,8 +1041,22 @@ class C01(fw.Prop):
 
     def distribution(self, cases, observations):
         d = {"roots": {}, "nodes": [], "stmt_kinds": {}, "nonlocal_edges": 0, "order_edges": 0, "fake_rejects": 0,
-             "builders_raised": 0, "inside_builder_model": 0, "out_of_model": {}}
+             "builders_raised": 0, "inside_builder_model": 0, "out_of_model": {},
+             "inside_extended_model": 0, "inside_extended_model_by_root": {}, "out_of_extended_model": {}}
+        d["near_miss"] = {"applied": 0, "refused_by_builders": 0, "accepted": 0, "kinds": {}, "refused_with": {}}
         for c, o in zip(cases, observations):
+            if o.get("near_miss"):
+                nm = d["near_miss"]
+                nm["applied"] += 1
+                kind = o["near_miss"]
+                kk = nm["kinds"].setdefault(kind, [0, 0])          # [refused, accepted]
+                if "doc" not in o:
+                    nm["refused_by_builders"] += 1
+                    kk[0] += 1
+                    nm["refused_with"][o["error"]] = nm["refused_with"].get(o["error"], 0) + 1
+                    continue
+                nm["accepted"] += 1
+                kk[1] += 1
             if "doc" not in o:
                 d["builders_raised"] += 1
                 continue
@@ -796,6 +1069,21 @@ class C01(fw.Prop):
             d["inside_builder_model"] += bool(o.get("in_model"))
             if o.get("out_of_model"):
                 d["out_of_model"][o["out_of_model"]] = d["out_of_model"].get(o["out_of_model"], 0) + 1
+            br = d["inside_extended_model_by_root"].setdefault(p["root"], [0, 0])     # [inside, generated]
+            br[1] += 1
+            # the general stream alone (no `allow` restriction, not near-miss): how much of what the unrestricted generator
+            # produces is inside the extended model
+            gen = c.get("allow") is None and c.get("nearmiss") is None and "seed" in c
+            if gen:
+                bg = d.setdefault("inside_extended_model_general_stream_by_root", {}).setdefault(p["root"], [0, 0])
+                bg[1] += 1
+            if o.get("in_model2"):
+                d["inside_extended_model"] += 1
+                br[0] += 1
+                if gen:
+                    bg[0] += 1
+            if o.get("out_of_model2"):
+                d["out_of_extended_model"][o["out_of_model2"]] = d["out_of_extended_model"].get(o["out_of_model2"], 0) + 1
             for k, v in progs.kinds_of(p).items():
                 d["stmt_kinds"][k] = d["stmt_kinds"].get(k, 0) + v
         ns = sorted(d["nodes"])
@@ -1022,6 +1310,17 @@ NAMED["tracked_wire_before_index"] = {
          "via": "add", "id": 1},
         {"k": "tadd", "op": ["custom", "h", ["Q"], ["Q"]], "args": [["i", 0]], "outs": [None], "via": "add", "id": 2},
         {"k": "tout", "mode": "indexed", "args": [["w", 3], ["i", 0]], "id": 3}]}
+# seeded change C01-f (missed before the near-miss stream): Conditional._update_outputs with a truthiness test: the first
+# finished case records an EMPTY output row, a later case sets a non-empty one.  hugr-py has to refuse the second case
+# (ConditionalError: outside the property); if every call is accepted the document has to be valid
+NAMED["cond_empty_then_nonempty"] = {
+    "root": "dfg", "ins": ["B", "B"], "_near_miss": "cond:add:later",
+    "body": {"ins": [1, 2], "stmts": [
+        {"k": "cond", "cond": 1, "args": [2], "style": "cases", "order": [0, 1], "sum_ty": "B", "other_tys": ["B"], "id": 1,
+         "outs": [], "cases": [
+             {"ins": [3], "stmts": [], "outs": [], "out_tys": [], "defs": []},
+             {"ins": [4], "stmts": [], "outs": [4], "out_tys": ["B"], "defs": []}]}],
+        "outs": [], "out_tys": [], "defs": []}}
 NEG_NAMED = ["localfn", "divmod_partial_ext"]
 
 PROP = C01()
